@@ -82,6 +82,8 @@ func hasBackEdgeTo(b, h *ssa.BasicBlock) bool {
 
 func runC10(c *Ctx) {
 	runC10Synthetic(c)
+	runC10NilWrites(c)
+	runC10NilFields(c)
 	p, fx := c.P, c.Fx
 	nilmapFacts = fx
 	pkgClusterInfo := "pkg/scheduler/cache/cluster_info"
@@ -670,4 +672,49 @@ func runC10Synthetic(c *Ctx) {
 			"a Queue object whose name equals the synthetic parent's is filed under the same key: it replaces the parent, becomes its own parent, and the cycle removal then deletes every queue of the cluster (nothing is scheduled any more)")
 	}
 	c.Floor("O6", "DOM insertions next to a synthetic queue", n, 1)
+}
+
+// C10-O7 (NILWRITE): no write into the Annotations / Labels map of an API object without the map being known non-nil.
+// An object without annotations (or labels) carries a nil map; `obj.Annotations[k] = v` then panics with "assignment
+// to entry in nil map" — inside Snapshot / OpenSession that is a crash of every scheduling cycle while the object
+// exists. Every such write on the scheduler's paths is preceded, on every path, by a nil test, a successful lookup in
+// the same map, or an assignment of a fresh map.
+func runC10NilWrites(c *Ctx) {
+	p, fx := c.P, c.Fx
+	total := 0
+	for _, fn := range p.FuncsIn("pkg/scheduler") {
+		if isTestdataOrMock(fn) {
+			continue
+		}
+		bad, n := nilMapWrites(fx, fn)
+		total += n
+		for _, in := range bad {
+			c.Viol("O7", "NILWRITE", funcKey(fn)+": write into "+trunc(termOf(in.(*ssa.MapUpdate).Map).String(), 80)+" behind a nil test", instrPos(in),
+				"an Annotations/Labels map of an API object is written on a path that has neither tested it for nil nor initialised it: for an object without annotations (labels) the scheduling cycle panics with 'assignment to entry in nil map'")
+		}
+	}
+	c.Hold("O7", "NILWRITE", fmt.Sprintf("%d writes into Annotations/Labels maps in pkg/scheduler are guarded or follow an initialisation", total), 0, "no unguarded write")
+	c.Floor("O7", "NILWRITE annotation/label map writes", total, 3)
+}
+
+// C10-O8 (NILFIELD): an optional field of an API object is not dereferenced without a nil test. Optional scalars of
+// Kubernetes and KAI API types are pointers (spec.storageClassName, spec.nodeName of a ResourceSlice, backoffLimit …);
+// a well-typed object may leave them unset. Every `*obj.F` on such a field in the scheduler is dominated by
+// `obj.F != nil` (the rule found F21: a PVC without storage class crashed every snapshot).
+func runC10NilFields(c *Ctx) {
+	p, fx := c.P, c.Fx
+	total := 0
+	for _, fn := range p.FuncsIn("pkg/scheduler") {
+		if isTestdataOrMock(fn) {
+			continue
+		}
+		bad, n := nilFieldDerefs(fx, fn)
+		total += n
+		for _, in := range bad {
+			c.Viol("O8", "NILFIELD", funcKey(fn)+": *"+trunc(termOf(in.(*ssa.UnOp).X).String(), 80)+" behind a nil test", instrPos(in),
+				"an optional (pointer) field of an API object is dereferenced without a nil test: an object that leaves the field unset makes the scheduling cycle panic")
+		}
+	}
+	c.Hold("O8", "NILFIELD", fmt.Sprintf("%d dereferences of optional API fields in pkg/scheduler are behind a nil test", total), 0, "no unguarded dereference")
+	c.Floor("O8", "NILFIELD optional-field dereferences", total, 3)
 }
